@@ -28,6 +28,7 @@ package mem
 //@   ensures [every-stored-alert-is-announced] count("PostStore") == countnil0("store.Alerts).Set") && count("store.Alerts).Set") == countnil0("PreStore")
 //@   ensures [every-stored-alert-offered-to-every-subscriber] count("select") == count("PostStore") * len(a.listeners)
 //@   at call store.Alerts).Get assert [fan-out-of-the-previous-alert-complete] count("select") == count("PostStore") * len(a.listeners)
+//@   at call chan.send assert [subscribers-are-offered-the-stored-version] arg0 != nil && arg0.Data == ((ret1("store.Alerts).Get") == nil && overlaps(alerts[rangeindex1 + 1], ret("store.Alerts).Get"))) ? ret("Alert).Merge") : alerts[rangeindex1 + 1])
 //@   ensures [best-effort] result == nil
 //@   loop 1 invariant rangeindex < len(alerts) && count("store.Alerts).Get") == rangeindex + 1
 //@   loop 1 invariant count("PostStore") == countnil0("store.Alerts).Set") && count("store.Alerts).Set") == countnil0("PreStore")
